@@ -1187,8 +1187,8 @@ func run(r *hx.Run) error {
 	// uniseg.FirstLineSegment must-breaks behind them, uniseg.HasTrailingLineBreak does not know them; both soft-wrap
 	// scanners are run at a width at which everything fits, so the number of lines is the number of hard breaks + 1
 	for _, b := range []string{"\n", "\r", "\r\n", "\u2028", "\u2029", "\u0085", "\v", "\f"} {
-		for _, x := range []string{"a", "ab c"} {
-			for _, y := range []string{"b", "世 d"} {
+		for _, x := range []string{"a", "ab c", "世"} {
+			for _, y := range []string{"b", "世 d", "c-d", "b" + b + "e"} {
 				op := "MB " + hx.Hex(x+b+y)
 				r.Emit(op, runMB(x+b+y))
 				r.Count("mandatory-break:" + fmt.Sprintf("%q", b))
